@@ -226,7 +226,9 @@ class _Walker:
                 v = n.value
                 cands = [v.body, v.orelse] if isinstance(v, ast.IfExp) else [v]
                 hit = any((isinstance(c, ast.Call) and norm(c.func) == "slice") or
-                          (isinstance(c, ast.Name) and c.id in maybe_slice) for c in cands)
+                          (isinstance(c, ast.Name) and c.id in maybe_slice) or
+                          # the label permutation is an index array OR slice(None) (see GroupBy._labels_argsort)
+                          (isinstance(c, ast.Attribute) and c.attr == "_labels_argsort") for c in cands)
                 if hit:
                     for t in n.targets:
                         if isinstance(t, ast.Name) and t.id not in maybe_slice:
@@ -487,7 +489,11 @@ class _Walker:
                 parts = [deep(o) for o in arg_o[:1]] + [as_index(deep(o)) for o in arg_o[1:2]] + \
                         [deep(o) for k, o in kw_o.items() if k == "data"] + \
                         [as_index(deep(o)) for k, o in kw_o.items() if k == "index"]
-                return contain(union(*parts)) if parts else FRESH
+                out = contain(union(*parts)) if parts else FRESH
+                # a pandas object built directly over grouping-owned storage (no copy): handing it out hands out the state
+                data_o = arg_o[0] if arg_o else kw_o.get("data", FRESH)
+                wrapped = {"W:" + x for x in data_o if x.startswith("S:")}
+                return frozenset(out | wrapped) if wrapped else out
             return union(*(arg_o + list(kw_o.values()))) if (arg_o or kw_o) else FRESH
         # unknown call: conservatively derived from everything it was given
         return union(recv_o, *(arg_o + list(kw_o.values())))
@@ -524,6 +530,8 @@ class _Walker:
                 return True                        # a name that may hold a slice object
             if isinstance(n, ast.Call) and norm(n.func) == "slice":
                 return True
+            if isinstance(n, ast.Attribute) and n.attr == "_labels_argsort":
+                return True
         return False
 
     def positional(self, value: ast.AST, env) -> Optional[List[Origins]]:
@@ -557,7 +565,9 @@ class _Walker:
             return sl.id in self.array_names
         if isinstance(sl, ast.Attribute):
             c = attr_chain(sl)
-            return bool(c) and c[0] == "self" and c[-1] in ("group_ikey", "_group_ikey", "_labels_argsort", "_group_sort_indexer")
+            # NB: self._labels_argsort is an index array OR slice(None) (already-sorted / categorical / unsorted-by-request
+            # labels), so X[self._labels_argsort] may be a view of X - it is not in this list
+            return bool(c) and c[0] == "self" and c[-1] in ("group_ikey", "_group_ikey", "_group_sort_indexer")
         if isinstance(sl, ast.Subscript):
             return self.array_like_index(sl.value)
         return False
@@ -960,6 +970,7 @@ def rule_O2(repo: Repo) -> RuleResult:
         # freshness O1 checks at the kernels (written parameters bound to fresh arrays).
         scalars = _scalar_params(f)
         o = {x for x in s.returns if x not in (F, "LOCALS") and not x.startswith("E:") and "IX:" not in x}
+        o = {("a pandas object wrapping (copy=False) grouping state " + x[4:]) if x.startswith("W:S:") else x for x in o}
         o = {x for x in o if not (x.startswith("P:") and (x[2:] in scalars or x[2:] in ("self", "cls")))}
         top = sorted(x for x in s.returns if not x.startswith("E:"))
         construct = f"returns({f.qualname}) = {top}"
